@@ -1,13 +1,26 @@
 #!/bin/bash
-# seed_matrix.sh : apply every confirmed seeded change to /repo in turn, run the check of the property it
-# breaks, undo; prints one line per seed.  (Uses /repo itself: do not run other checks meanwhile.)
+# seed_matrix.sh : apply every confirmed seeded change to /repo in turn, run the quick check of the property
+# it breaks, undo; writes seeded/MATRIX.md.  (Uses /repo itself: do not run other checks meanwhile.)
 cd /verif
+out=seeded/MATRIX.md
+{
+echo "# Seeded changes vs checks"
+echo
+echo "Produced by tools/seed_matrix.sh on $(date -u +%Y-%m-%dT%H:%MZ) with VERIF_SEED=${VERIF_SEED:-0}: each patch applied to /repo, \`./check <property> --tier quick\` run, patch undone."
+echo
+echo "| seeded change | property | what it does | result of the check |"
+echo "|---|---|---|---|"
+} > $out
 for d in seeded/*/; do
   s=$(basename $d)
   p=${s%-*}
-  if ! git -C /repo apply --check /verif/$d/patch.diff 2>/dev/null; then echo "$s: patch does not apply to the current tree"; continue; fi
+  what=$(python3 -c "import json;m=json.load(open('/verif/$d/meta.json'));print(m.get('summary','')[:160].replace('|','/').replace('\n',' '))")
+  if ! git -C /repo apply --check /verif/$d/patch.diff 2>/dev/null; then echo "| $s | $p | $what | patch does not apply to the current tree |" >> $out; continue; fi
   git -C /repo apply /verif/$d/patch.diff
-  out=$(./check $p --tier quick 2>&1 | grep -E "^VIOLATION" | head -1)
+  res=$(./check $p --tier quick 2>&1 | grep -E "^VIOLATION" | head -1)
   git -C /repo checkout -- .
-  echo "$s -> $p: ${out:-NO ALARM}"
+  if [ -z "$res" ]; then r="NO ALARM"; else case "$res" in *no-failing-input-found*) r="VIOLATION (no-failing-input-found)";; *) r="VIOLATION with failing input";; esac; fi
+  sup=$(python3 -c "import json;m=json.load(open('/verif/$d/meta.json'));print('superseded by a repair' if 'status_on_current_tree' in m else '')")
+  echo "| $s | $p | $what | $r ${sup:+($sup)} |" >> $out
+  echo "$s -> $p: $r"
 done
